@@ -380,6 +380,69 @@ Section ExecConeProofs.
     - destruct HPre as (_ & HK & _). apply HK. apply (kept_in_old P P' s Hid' Hs Ek).
     - intros p Hpo. unfold y1. rewrite resync_out by exact Hpo. reflexivity.
   Qed.
+  (* ---------------------------------------------------------------------------------------- *)
+  (* Optional steps                                                                           *)
+  (* ---------------------------------------------------------------------------------------- *)
+  Lemma build_opt_filter mand proj : forall todo y,
+    fold_left (fun y s => step_build_opt run mand proj s y) todo y =
+    build_from proj (filter (is_required mand proj) todo) y.
+  Proof.
+    induction todo as [|s r IH]; intros y; [reflexivity|]. cbn [fold_left filter]. unfold step_build_opt at 2.
+    destruct (is_required mand proj s); [rewrite build_from_cons|]; apply IH.
+  Qed.
+
+  Lemma required_ids_sub mand : forall proj id, In id (required_ids mand proj) -> exists s, In s proj /\ sid s = id.
+  Proof.
+    induction proj as [|s rest IH]; intros id H; [contradiction|]. cbn [required_ids] in H.
+    destruct (mand (sid s) || existsb (fun c => memN (sid c) (required_ids mand rest) && consumes_output_of c s) rest).
+    - destruct H as [<-|H]; [exists s; split; [left|]; reflexivity|].
+      destruct (IH id H) as (x & Hx & Hid). exists x. split; [right; exact Hx|exact Hid].
+    - destruct (IH id H) as (x & Hx & Hid). exists x. split; [right; exact Hx|exact Hid].
+  Qed.
+
+  (* with unique ids: a required step is mandatory, or a required step of the plan consumes one of its outputs *)
+  Lemma required_spec mand : forall proj s,
+    NoDup (map sid proj) -> In s proj -> memN (sid s) (required_ids mand proj) = true ->
+    mand (sid s) = true \/
+    exists c, In c proj /\ memN (sid c) (required_ids mand proj) = true /\ consumes_output_of c s = true.
+  Proof.
+    induction proj as [|x rest IH]; intros s Hnd Hs H; [contradiction|].
+    cbn [map] in Hnd. inversion Hnd as [|? ? Hnin Hnd']; subst.
+    cbn [required_ids] in *.
+    destruct (mand (sid x) || existsb (fun c => memN (sid c) (required_ids mand rest) && consumes_output_of c x) rest) eqn:E.
+    - destruct Hs as [->|Hs].
+      + apply orb_true_iff in E. destruct E as [E|E]; [left; exact E|right].
+        apply existsb_exists in E. destruct E as (c & Hc & Hcc). apply andb_true_iff in Hcc. destruct Hcc as [H1 H2].
+        exists c. split; [right; exact Hc|]. split; [|exact H2]. unfold memN in H1 |- *. cbn [existsb]. rewrite H1. apply orb_true_r.
+      + assert (Hne : sid s <> sid x) by (intros He; apply Hnin; rewrite <- He; apply in_map; exact Hs).
+        unfold memN in H. cbn [existsb] in H. apply orb_true_iff in H. destruct H as [H|H]; [apply N.eqb_eq in H; congruence|].
+        change (existsb (N.eqb (sid s)) (required_ids mand rest)) with (memN (sid s) (required_ids mand rest)) in H.
+        destruct (IH s Hnd' Hs H) as [Hm|(c & Hc & H1 & H2)]; [left; exact Hm|right].
+        exists c. split; [right; exact Hc|]. split; [|exact H2]. unfold memN in H1 |- *. cbn [existsb]. rewrite H1. apply orb_true_r.
+    - destruct Hs as [->|Hs].
+      + exfalso. apply memN_In in H. destruct (required_ids_sub mand rest _ H) as (z & Hz & Hid).
+        apply Hnin. rewrite <- Hid. apply in_map. exact Hz.
+      + destruct (IH s Hnd' Hs H) as [Hm|(c & Hc & H1 & H2)]; [left; exact Hm|right].
+        exists c. split; [right; exact Hc|]. split; [exact H1|exact H2].
+  Qed.
+
+  Theorem exec_cone_optional : C04_exec_cone_optional run.
+  Proof.
+    intros mand P P' y w s Hwf HPre Hs y1.
+    assert (Hb : build_opt run mand P' y1 = build_from P' (filter (is_required mand P') P') y1)
+      by (unfold build_opt; apply build_opt_filter).
+    split; [exact Hb|]. intros Hran. pose proof (wf_WF _ Hwf) as (Hid & _ & _).
+    assert (Hsub : forall q, In q (filter (is_required mand P') P') -> In q P') by (intros q Hq; apply filter_In in Hq; tauto).
+    split.
+    - unfold ran_opt, ran_s in Hran.
+      destruct (in_log_true P' (sid s) _ y1 Hran) as (d & s' & r & Hp & He & _).
+      assert (Hin : In s' (filter (is_required mand P') P')) by (rewrite Hp; apply in_or_app; right; left; reflexivity).
+      apply filter_In in Hin. destruct Hin as [Hs' Hreq].
+      rewrite (sid_unique P' s' s Hid Hs' Hs He) in Hreq.
+      destruct (required_spec mand P' s Hid Hs Hreq) as [Hm|(c & Hc & H1 & H2)]; [left; exact Hm|right].
+      exists c. auto.
+    - rewrite Hb. exact (exec_cone_schedules P P' _ y w s Hwf HPre Hs Hsub Hran).
+  Qed.
 End ExecConeProofs.
 
 (* ------------------------------------------------------------------------------------------ *)
